@@ -329,16 +329,81 @@ func tlsByteLabel(p *Pkg, name string) (string, error) {
 	return s, nil
 }
 
+// tlsCmp matches "<x> op <constant>" where <x> is len(...) (what == "len") or a selector ending in .<what>
+func tlsCmp(p *Pkg, e ast.Expr, what string) (string, *big.Int, bool) {
+	b, ok := e.(*ast.BinaryExpr)
+	if !ok {
+		return "", nil, false
+	}
+	switch b.Op {
+	case token.LSS, token.LEQ, token.GTR, token.GEQ, token.EQL, token.NEQ:
+	default:
+		return "", nil, false
+	}
+	if what == "len" {
+		c, ok := b.X.(*ast.CallExpr)
+		if !ok {
+			return "", nil, false
+		}
+		if id, ok := c.Fun.(*ast.Ident); !ok || id.Name != "len" {
+			return "", nil, false
+		}
+	} else {
+		sel, ok := b.X.(*ast.SelectorExpr)
+		if !ok || sel.Sel.Name != what {
+			return "", nil, false
+		}
+	}
+	val, err := p.Eval(b.Y)
+	if err != nil {
+		return "", nil, false
+	}
+	return b.Op.String(), val, true
+}
+
+// tlsCondition finds in function fn the (unique) condition "A <join> B" whose operands are comparisons on
+// whatA / whatB and emits <nameA>Op, <nameA>Bound, <nameB>Op, <nameB>Bound
+func tlsCondition(p *Pkg, v *VFile, fn string, join token.Token, whatA, whatB, nameA, nameB string) error {
+	f, ok := p.Funcs[fn]
+	if !ok {
+		return fmt.Errorf("function %s not found", fn)
+	}
+	found := 0
+	var opA, opB string
+	var valA, valB *big.Int
+	ast.Inspect(f, func(n ast.Node) bool {
+		b, ok := n.(*ast.BinaryExpr)
+		if !ok || b.Op != join {
+			return true
+		}
+		oa, va, okA := tlsCmp(p, b.X, whatA)
+		ob, vb, okB := tlsCmp(p, b.Y, whatB)
+		if okA && okB {
+			found++
+			opA, valA, opB, valB = oa, va, ob, vb
+		}
+		return true
+	})
+	if found != 1 {
+		return fmt.Errorf("%s: expected exactly one condition on %s %s %s, found %d", fn, whatA, join, whatB, found)
+	}
+	v.Str(nameA+"Op", opA)
+	v.N(nameA+"Bound", valA)
+	v.Str(nameB+"Op", opB)
+	v.N(nameB+"Bound", valB)
+	return nil
+}
+
 func init() {
 	register("tlssuites", func(c *Ctx) error {
-		p, err := LoadPkg(c, "gmtls", "cipher_suites.go", "common.go", "gm_support.go", "prf.go")
+		p, err := LoadPkg(c, "gmtls", "cipher_suites.go", "common.go", "conn.go", "gm_support.go", "prf.go")
 		if err != nil {
 			return err
 		}
 		tlsResolveConsts(p)
 
 		v := NewV("gmtls cipher suite tables and protocol constants", p,
-			"gmtls/cipher_suites.go", "gmtls/gm_support.go", "gmtls/common.go", "gmtls/prf.go")
+			"gmtls/cipher_suites.go", "gmtls/gm_support.go", "gmtls/common.go", "gmtls/prf.go", "gmtls/conn.go")
 
 		// 1. constants
 		groups := [][]string{
@@ -348,6 +413,8 @@ func init() {
 			{"suiteECDHE", "suiteECDSA", "suiteTLS12", "suiteSHA384", "suiteDefaultOff"},
 			{"NoClientCert", "RequestClientCert", "RequireAnyClientCert", "VerifyClientCertIfGiven", "RequireAndVerifyClientCert"},
 			{"TLS_FALLBACK_SCSV"},
+			{"recordTypeChangeCipherSpec", "recordTypeAlert", "recordTypeHandshake", "recordTypeApplicationData",
+				"tcpMSSEstimate", "recordSizeBoostThreshold", "maxWarnAlertCount"},
 		}
 		for _, g := range groups {
 			for _, n := range g {
@@ -437,6 +504,17 @@ func init() {
 				bs = append(bs, big.NewInt(int64(b)))
 			}
 			v.NList("gen_"+n+"_bytes", bs)
+		}
+
+		// 5. version tests of the record layer, read from the conditions in the source:
+		//    Conn.Write:             len(b) > 1 && c.vers <= VersionTLS10            (1/n-1 split of block-cipher records)
+		//    Conn.writeRecordLocked: c.out.version >= VersionTLS11 || c.out.version == VersionGMSSL   (explicit IV)
+		v.Raw("\n")
+		if err := tlsCondition(p, v, "Conn.Write", token.LAND, "len", "vers", "gen_splitLen", "gen_splitVers"); err != nil {
+			return err
+		}
+		if err := tlsCondition(p, v, "Conn.writeRecordLocked", token.LOR, "version", "version", "gen_explicitIVVers", "gen_explicitIVAlso"); err != nil {
+			return err
 		}
 
 		// the generated text must stay free of the proof-escape vocabulary, also inside identifiers
